@@ -189,8 +189,9 @@ def run(ctx: Context, rep) -> None:
         "exactly on recorded > running; its operands are the recorded "
         "sedpack_version field and sedpack.__version__")
     load = ctx.fn(f"{BASE}._load")
+    from sa.norm import canon
     gates = [n for n in load.body_nodes() if isinstance(n, ast.If) and
-             "sedpack_version" in ast.unparse(n.test)]
+             "sedpack_version" in canon(load, n.test)]
     rep.ob("C20.gate", len(gates) == 1, loc=load.loc(), where=load.qualname,
            construct="if <recorded> newer than <running>: raise",
            message="a version gate exists")
@@ -224,7 +225,8 @@ def run(ctx: Context, rep) -> None:
     mv = [c for c in load.calls() if isinstance(c.func, ast.Attribute) and
           c.func.attr == "model_validate_json"]
     rep.ob("C20.gate", len(mv) == 1 and "_get_config_path(path)" in
-           ast.unparse(mv[0]) and "DatasetInfo" in ast.unparse(mv[0].func),
+           canon(load, mv[0]) and ".read_text(" in canon(load, mv[0]) and
+           "DatasetInfo" in ast.unparse(mv[0].func),
            loc=load.loc(), where=load.qualname,
            construct=short(mv[0], 100) if mv else "<none>",
            message="the description is parsed from <path>/dataset_info.json "
